@@ -916,6 +916,15 @@ class HistoryWorld:
                     self.check_c09(s, step, op, op.get('root', 0))
                     if ids_before is not None and not op.get('bad'):
                         self.check_c11_write(s, step, op, ids_before, delta)
+                    if self.case.get('mix') == 'c04' and not s.wrote_invalid and op.get('root', 0) == 0:
+                        from models import validator_model as VM
+                        if VM.holds_degraded_field(s.models[0], s.meta[0]['version']):
+                            # TOLERANT gave a base-datatype field several components: the library turns
+                            # that Field object into one of datatype None for good (parser.parse_field),
+                            # which validate() names -- also after later writes made the text fit again.
+                            # From here on only the predicted defects are checked, not conformance.
+                            s.wrote_invalid = True
+                            self.probe('c04_degraded_field')
             self.check_c10(s, step, op)
             m = s.models[0]
             if m is not None:
